@@ -62,11 +62,41 @@ func (dm *DMap) unlockKey(ctx context.Context, key string, token []byte) error {
 	}
 
 	// release it.
-	_, err = dm.deleteKeys(ctx, key)
+	err = dm.removeLock(key, token)
+	if errors.Is(err, ErrNoSuchLock) {
+		return err
+	}
 	if err != nil {
 		return fmt.Errorf("unlock failed because of delete: %w", err)
 	}
 	return nil
+}
+
+// removeLock deletes the lock entry only if it is still the caller's. Between the Get above and
+// the delete the lock may have expired and been taken by somebody else; an unconditional delete
+// would remove that holder's lock. The token and the expiry are checked again under the
+// fragment's lock, the one a competing Lock (Put with NX) has to take.
+func (dm *DMap) removeLock(key string, token []byte) error {
+	hkey := partitions.HKey(dm.name, key)
+	part := dm.getPartitionByHKey(hkey, partitions.PRIMARY)
+	f, err := dm.loadOrCreateFragment(part)
+	if err != nil {
+		return err
+	}
+
+	f.Lock()
+	defer f.Unlock()
+
+	if f.storage.Check(hkey) {
+		current, err := f.storage.Get(hkey)
+		if err != nil {
+			return err
+		}
+		if isKeyExpired(current.TTL()) || !bytes.Equal(current.Value(), token) {
+			return ErrNoSuchLock
+		}
+	}
+	return dm.deleteOnCluster(hkey, key, f)
 }
 
 // Unlock takes key and token and tries to unlock the key.
@@ -194,8 +224,17 @@ func (dm *DMap) leaseKey(ctx context.Context, key string, token []byte, timeout 
 		return ErrNoSuchLock
 	}
 
-	// update
-	err = dm.Expire(ctx, key, timeout)
+	// update. The token is compared again where the expiry is written, under the fragment's
+	// lock: the lock may have expired and been taken by somebody else since the Get above.
+	le := newEnv(ctx)
+	le.putConfig = &PutConfig{OnlyUpdateTTL: true, ifValue: token}
+	le.dmap = dm.name
+	le.key = key
+	le.timeout = timeout
+	err = dm.put(le)
+	if errors.Is(err, ErrNoSuchLock) || errors.Is(err, ErrKeyNotFound) {
+		return ErrNoSuchLock
+	}
 	if err != nil {
 		return fmt.Errorf("lease failed: %w", err)
 	}
